@@ -1241,7 +1241,7 @@ package jsonpath
 //@   inline
 
 //@ func (*jsonPathParser)._pushIndexSubscript
-//@   props C02 C19
+//@   props C02 C19 C17
 //@   parsetime
 //@   requires p != nil
 //@   panics ErrorInvalidArgument
@@ -1403,7 +1403,7 @@ package jsonpath
 //@   requires node != nil ==> PN(node)
 
 //@ func (*jsonPathParser).pushCompareRegex
-//@   props C02 C19
+//@   props C02 C19 C17
 //@   parsetime
 //@   requires p != nil
 //@   panics ErrorInvalidArgument
@@ -1421,7 +1421,7 @@ package jsonpath
 // C19 / C14: the node pushed holds the function VALUE found under that name when the path was parsed - filter functions
 // are looked up first - so later changes of the Config cannot reach a parsed function
 //@ func (*jsonPathParser).pushFunction
-//@   props C02 C19 C14
+//@   props C02 C19 C14 C17
 //@   parsetime
 //@   requires p != nil
 //@   requires wf(p.params)
@@ -1469,7 +1469,7 @@ package jsonpath
 //@   requires p != nil
 
 //@ func (*jsonPathParser).pushScriptQualifier
-//@   props C02 C19
+//@   props C02 C19 C17
 //@   parsetime
 //@   requires p != nil
 //@   panics ErrorNotSupported
@@ -1531,20 +1531,22 @@ package jsonpath
 //@   requires wf(p.params) && (forall k {elemAt(p.params, k)} :: off(p.params) <= k && k < off(p.params) + len(p.params) ==> nodeOK(elemAt(p.params, k)) && 0 <= chainLen(elemAt(p.params, k)) && chainWalk(elemAt(p.params, k)))
 
 //@ func (*jsonPathParser).syntaxErr
-//@   props C02 C19
+//@   props C02 C19 C17
 //@   parsetime
 //@   requires p != nil
 //@   requires 0 <= pos && pos <= runeCount(buffer)
 //@   ensures kind: isType(ret, ErrorInvalidSyntax) && asType(ret, ErrorInvalidSyntax).position == pos && asType(ret, ErrorInvalidSyntax).reason == reason
+// C17: `near` is exactly the rest of the path from character `pos` on (characters, not bytes)
+//@   ensures near: asType(ret, ErrorInvalidSyntax).near == runeSuffix(buffer, pos)
 
 //@ func (*jsonPathParser).toFloat
-//@   props C02 C19
+//@   props C02 C19 C17
 //@   parsetime
 //@   requires p != nil
 //@   panics ErrorInvalidArgument
 
 //@ func (*jsonPathParser).toInt
-//@   props C02 C19
+//@   props C02 C19 C17
 //@   parsetime
 //@   requires p != nil
 //@   panics ErrorInvalidArgument
